@@ -907,6 +907,31 @@ pub fn completeness(
                 }
             }
         }
+        // Every enum is represented as its declared underlying type and has all its cases.
+        for d in &m.definitions {
+            let pyxis::grammar::ItemDefinitionInner::Enum(e) = &d.inner else {
+                continue;
+            };
+            let want = normalise_grammar_type(&e.type_);
+            if let Some(got) = inv.enum_reprs.get(d.name.as_str()) {
+                if *got != want {
+                    return Err((
+                        "enum-base-changed".into(),
+                        format!("{out_rel}: enum `{}` declared over {want}, emitted repr({got})", d.name),
+                    ));
+                }
+            }
+            if let Some(got) = inv.enum_variants.get(d.name.as_str()) {
+                let declared: Vec<String> =
+                    e.statements.iter().map(|s| s.name.as_str().to_string()).collect();
+                if *got != declared {
+                    return Err((
+                        "enum-cases-changed".into(),
+                        format!("{out_rel}: enum `{}` declared {declared:?}, emitted {got:?}", d.name),
+                    ));
+                }
+            }
+        }
         // Every declared virtual function has its slot in the generated vftable struct, with the
         // owner as receiver and the declared parameter and return types.
         for d in &m.definitions {
